@@ -136,6 +136,15 @@ class CFG:
     def reaches(self, a, b):
         return b in self.reachable_from(a)
 
+    def loop_blocks(self, header):
+        """blocks on a cycle through `header` (its natural loop, nested loops included)"""
+        fwd = self.reachable_from(header)
+        return {x for x in fwd if x == header or header in self.reachable_from(x)}
+
+    def loop_exit_edges(self, header):
+        L = self.loop_blocks(header)
+        return [(s, d, label) for (s, d, label) in self.edges if s in L and d not in L]
+
     def strictly_reaches(self, a, b):
         """b reachable from a through at least one edge"""
         for s in self.succ[a]:
